@@ -191,7 +191,7 @@ def build_job(job, bdir, log):
     fl = os.path.join(bdir, 'x.c.funcs')
     info['functions'] = open(fl).read().split() if os.path.exists(fl) else []
     mainc = os.path.join(bdir, 'main.c')
-    open(mainc, 'w').write('void __ll2c_run_ctors(void);\nvoid %s(void);\nint main(void) { __ll2c_run_ctors(); %s(); return 0; }\n' % (job.root, job.root))
+    open(mainc, 'w').write('extern int __ll2c_exc_pending;\nvoid __ll2c_run_ctors(void);\nvoid %s(void);\nint main(void) { __ll2c_run_ctors(); %s();\n#ifndef __LL2C_CONCRETE\n  __CPROVER_assert(!__ll2c_exc_pending, "no C++ exception escapes the harness");\n#endif\n  return 0; }\n' % (job.root, job.root))
     return {'xc': xc, 'mainc': mainc, 'info': info}
 
 def apply_arena(xc, n):
@@ -382,8 +382,11 @@ def run_job(job, seed, keep=False):
         if job.tv > 0:
             R['tv'] = translation_validation(job, bdir, built, seed, job.tv)
         # --- verdict
+        oom = ('ut of memory' in rawm) or ('ut of memory' in raww) or ('bad_alloc' in rawm) or ('bad_alloc' in raww)
         if m['timeout'] or w['timeout']:
             R['status'] = 'inconclusive'; R['why'] = 'timeout (main=%s witness=%s)' % (m['timeout'], w['timeout'])
+        elif oom and m['verdict'] != 'FAILED':
+            R['status'] = 'inconclusive'; R['why'] = 'solver ran out of memory (cap %s GB)' % job.mem_gb
         elif m['verdict'] == 'SUCCESS' and w['verdict'] == 'FAILED' and reach:
             missing = [c for c in job.covers if c not in covers_hit]
             if missing:
